@@ -263,7 +263,117 @@ def c10_jobs(tier):
     return jobs
 
 
+def c07_jobs(tier):
+    q = tier == "quick"
+    jobs = []
+    lens = [1, 2, 15, 16, 17, 32, 64] if q else list(range(1, 65)) + [128, 256, 512]
+    for e in range(3):
+        for i in range(3):
+            for p in range(3):
+                combos = [(lens[(e + i + p + k) % len(lens)], lens[(2 * e + i + 3 * p + 2 * k + 1) % len(lens)]) for k in range(3)] if q else \
+                    [(l, lens[(j * 7 + e + i + p) % len(lens)]) for j, l in enumerate(lens)]
+                for ln, ls in combos:
+                    jobs.append(job(SEC, "HIKESAKeys", [e, i, p, ln, ls]))
+                for role in (0, 1):
+                    jobs.append(job(ROOT, "HTwoPartyKeys", [e, i, p, role, 40, 0]))
+    jobs.append(job(SEC, "HIKESAKeysRefuse", []))
+    return jobs
+
+
+def c08_jobs(tier):
+    q = tier == "quick"
+    jobs = []
+    nonces = [0, 1, 16, 32] if q else list(range(0, 33)) + [64]
+    junks = [0, 5] if q else [0, 1, 8, 63, 64, 65]
+    for p in range(3):
+        for e in range(3):
+            for i in range(4):
+                for ln in nonces:
+                    for j in junks:
+                        if q and (p + e + i + ln + j) % 2 == 1:
+                            continue
+                        jobs.append(job(SEC, "HChildKeys", [p, e, i, ln, j]))
+    return jobs
+
+
+def c16_jobs(tier):
+    q = tier == "quick"
+    jobs = []
+    ks = [1, 16, 17, 32, 64] if q else range(1, 65)
+    ids = [0, 1, 15, 16, 64, 255] if q else range(0, 256)
+    for a in ks:
+        for b in (ks if q else [1, 16, 32, 64, a]):
+            for i in (ids if q else [0, 1, 16, 255, (a * 7) % 256]):
+                jobs.append(job(EAP, "HPrfPrime", [a, b, i]))
+    if not q:
+        for i in ids:
+            jobs.append(job(EAP, "HPrfPrime", [16, 16, i]))
+    for w in range(3):
+        for l in (1, 16):
+            jobs.append(job(EAP, "HPrfPrimeEmpty", [w, l]))
+    return jobs
+
+
+def c14_jobs(tier):
+    q = tier == "quick"
+    t = 0 if q else 1
+    jobs = []
+    for m in (0, 1, 2, 3, 254):
+        jobs.append(job(EAP, "HEapWellFormed", [m, 0, t], map_orders=True))
+        jobs.append(job(EAP, "HEapRoundTrip", [m, 0, t]))
+    masks = [m for m in range(128) if bin(m).count("1") <= (2 if q else 7)]
+    for m in masks:
+        jobs.append(job(EAP, "HEapRoundTrip", [50, m, t], wall_ms=120000))
+        if bin(m).count("1") <= 3:
+            jobs.append(job(EAP, "HEapWellFormed", [50, m, t], map_orders=True, wall_ms=120000))
+        else:
+            jobs.append(job(EAP, "HEapWellFormed", [50, m, 0], wall_ms=120000))
+    sizes = list(range(0, 41)) + [63, 64, 65, 127, 128, 129, 251, 252, 253, 255, 256, 257, 300] if q else range(0, 301)
+    for a in range(7):
+        for n in (sizes if a != 6 else [0, 20, 32]):
+            jobs.append(job(EAP, "HSetterSizes", [a, n]))
+    for n in ([65522, 65523, 65524, 65525] if q else range(65518, 65534)):
+        jobs.append(job(EAP, "HEapOversize", [n]))
+    return jobs
+
+
+def c15_jobs(tier):
+    q = tier == "quick"
+    t = 0 if q else 1
+    jobs = []
+    masks = [m for m in range(128) if bin(m).count("1") <= (2 if q else 7)]
+    keys = [0, 1, 16, 32, 33, 64, 65]
+    for i, m in enumerate(masks):
+        for kl in (keys if not q else [keys[i % 7], 32]):
+            jobs.append(job(EAP, "HMacSender", [m, kl, t], wall_ms=120000))
+            jobs.append(job(EAP, "HMacReceiver", [m, kl, t], wall_ms=120000))
+    for i in range(7):
+        for j in range(7):
+            if i == j:
+                continue
+            jobs.append(job(EAP, "HMacReceiverForeignOrder", [i, j, 32]))
+    return jobs
+
+
 PROPS = {
+    "C14": dict(jobs=c14_jobs, claim="For every EAP shape in the bound and all field values: the encoded packet is accepted by the strict reference parser (length = size, Success/Failure without data, 24-bit vendor id / 32-bit vendor type, AKA' attributes in whole words with word-count length, zero padding, exact bit length), the parser recovers the packet and the octets equal the reference encoder's; Unmarshal(Marshal(e)) == e; the setter refuses every wrong size 0..300 for the fixed-size attributes and a value read back through GetAttr - freshly set (after the caller's buffer is overwritten) and after a wire round trip - is exactly the value set, for every accepted size; two encodings of one message are identical under all explored map iteration orders; an oversize packet gives an error.",
+                bounds=lambda t: "methods Success/Failure, Identity, Notification, Nak, Expanded; AKA' attribute subsets of size %s; setter sizes %s for each of the 7 attributes; expanded data lengths around 65523" % (("<= 2", "0..40 and {63..65,127..129,251..257,300}") if t == "quick" else ("<= 7 (all 128)", "0..300")),
+                outside="KDF_INPUT values longer than 300 octets; map orders beyond those listed in the evidence for maps of more than 3 entries"),
+    "C15": dict(jobs=c15_jobs, claim="With HMAC-SHA-256 uninterpreted, CalcEapAkaPrimeAtMAC(key) equals the first 16 octets of H(key, w0) where w0 is the reference encoder's wire image of the packet with AT_MAC zeroed - for every prior AT_MAC content and every key length in the bound; a receiver that decodes the transmitted packet applies H to exactly the same octets (which, H being uninterpreted, holds iff its re-serialisation is octet-identical to what the sender authenticated); the same for reference-encoded packets with the attributes in any order and AT_MAC at any position.",
+                bounds=lambda t: "attribute subsets of size %s, key lengths {0,1,16,32,33,64,65}; foreign order: every ordered pair of distinct attributes with AT_MAC at every position" % ("<= 2" if t == "quick" else "<= 7"),
+                outside="'a different value if any octet or key differs' is the injectivity of the hashed argument (decided) plus collision resistance of HMAC (idealised, not decided); foreign packets with more than two attributes besides AT_MAC",
+                assumptions=CRYPTO_ASSUME),
+
+    "C07": dict(jobs=c07_jobs, claim="For all 27 (encryption key size, integrity, PRF) combinations and each (nonce, secret) length pair in the bound, for all octet values and SPIs: the seven SK_* values equal the consecutive slices of an independently written prf+ over an independently written SKEYSEED, with lengths from an independent RFC table; every ready-made PRF / integrity / cipher object is keyed with exactly those keys (probed through its public interface); two parties deriving from the same inputs hold identical keys and what one protects the other unprotects, in both directions.",
+                bounds=lambda t: "nonce / shared-secret lengths from %s; probe message 5 octets" % ("{1,2,15,16,17,32,64} (3 pairs per combination)" if t == "quick" else "1..64 and {128,256,512}"),
+                outside="other lengths up to 512 (these buffers are only appended and hashed); the Diffie-Hellman step itself is C09", assumptions=CRYPTO_ASSUME),
+    "C08": dict(jobs=c08_jobs, claim="For all PRFs x ESP key sizes x {none, MD5-96, SHA1-96, SHA2-256-128} and nonce lengths in the bound, for all SK_d and nonce octets: the four Child SA keys equal consecutive slices of the independent prf+(SK_d, Ni|Nr) in the prescribed order. Histories are decided by an inductive step: the IKE SA's Prf_d starts with arbitrary octets already written (any state an earlier use can leave, since the only state is the HMAC buffer) and the keys must still equal the specification, and a second derivation on the same object gives them again.",
+                bounds=lambda t: "nonce lengths %s, junk already in the PRF object %s octets" % (("{0,1,16,32}", "{0,5}") if t == "quick" else ("0..32 and 64", "{0,1,8,63,64,65}")),
+                outside="other nonce lengths", assumptions=CRYPTO_ASSUME),
+    "C16": dict(jobs=c16_jobs, claim="For each (|IK'|, |CK'|, |identity|) in the bound and all octet values (arbitrary, also non-ASCII identity octets): the five derived keys equal octets 0-15, 16-47, 48-79, 80-143, 144-207 of an independently written PRF'(IK'|CK', \"EAP-AKA'\"|identity) over the same uninterpreted HMAC-SHA-256; empty IK' or CK' is refused.",
+                bounds=lambda t: "key lengths %s, identity lengths %s" % (("{1,16,17,32,64}", "{0,1,15,16,64,255}") if t == "quick" else ("1..64", "0..255")),
+                outside="other length combinations", assumptions=CRYPTO_ASSUME),
+
     "C06": dict(jobs=c06_jobs, claim="(a) RFC 7296 3.14 stated as a predicate over the real EncodeEncrypt output, using the same uninterpreted E/D/H: header fields, next payload 46, both length fields final, SK next = first inner payload, IV, positive whole number of blocks, textbook-CBC decryption under the sender-direction key gives chain || pad || pad length where the strict reference parser turns the chain into exactly the original payloads, ICV = truncated HMAC under the sender-direction integrity key over everything before it. (b) messages built by the independent implementation with every legal pad length (all p <= 255 compatible with the block size) and arbitrary pad octets and IV are accepted and decoded to the original payloads.",
                 bounds=lambda t: "9 suites x 2 directions; message shapes: empty, one and two payloads at generator tier 0" + ("" if t == "quick" else ", every payload kind alone"),
                 outside="larger messages", assumptions=CRYPTO_ASSUME,
